@@ -1240,6 +1240,7 @@ type factGraph struct {
 	conds   []Cond
 	depth   map[termT]int
 	pending []*ssa.BinOp // narrow additions/subtractions whose no-wrap condition needs path facts
+	arith   []*ssa.BinOp // non-wrapping x ± y whose relation to x is refined with the path facts about y
 	pendDone map[*ssa.BinOp]bool
 }
 
@@ -1362,6 +1363,7 @@ func (g *factGraph) touch(t termT, d int) {
 				g.pending = append(g.pending, x)
 			}
 			if nowrap {
+				g.arith = append(g.arith, x)
 				// t − xa ∈ [ry.lo, ry.hi], t − ya ∈ [rx.lo, rx.hi]
 				g.add(xa, t, ry.hi)
 				g.add(t, xa, -ry.lo)
@@ -1376,6 +1378,7 @@ func (g *factGraph) touch(t termT, d int) {
 				g.pending = append(g.pending, x)
 			}
 			if nowrapS {
+				g.arith = append(g.arith, x)
 				// t = x − y: t − xa ∈ [−ry.hi, −ry.lo]
 				g.add(xa, t, -ry.lo)
 				g.add(t, xa, ry.hi)
@@ -1401,6 +1404,7 @@ func (g *factGraph) touch(t termT, d int) {
 	case *ssa.Phi:
 		if isIntType(x.Type()) {
 			g.counterFacts(x, t, d)
+			g.joinFacts(x, t, d)
 		}
 		// monotone loop counter: phi ≥ init (increasing) / phi ≤ init (decreasing)
 		if isIntType(x.Type()) {
@@ -1488,9 +1492,33 @@ func (g *factGraph) countFacts(t termT, x *ssa.Extract, d int) {
 	if !ok {
 		return
 	}
+	if c.Call.IsInvoke() && (c.Call.Method.Name() == "Read" || c.Call.Method.Name() == "ReadAt") && x.Index == 0 && len(c.Call.Args) > 0 {
+		arg := termT{v: g.e.lenBase(c.Call.Args[0]), len: true}
+		g.touch(arg, d+1)
+		g.add(arg, t, 0) // n ≤ len(p) (io.Reader contract)
+	}
 	sc := c.Call.StaticCallee()
 	if sc == nil {
 		return
+	}
+	// a library function's integer result on its non-failing returns: (v, n, nil) with n ≥ 1 vs (_, -1, err)
+	if isRepoFn(sc) && sc.Blocks != nil && isIntType(x.Type()) {
+		errIdx := -1
+		res := sc.Signature.Results()
+		for i := 0; i < res.Len(); i++ {
+			if isErrorType(res.At(i).Type()) {
+				errIdx = i
+			}
+		}
+		if errIdx >= 0 && errIdx != x.Index && g.nilErr(tupleExtractV(c, errIdx)) {
+			r := g.e.retRngNil(sc, x.Index, errIdx)
+			if r.hi < inf {
+				g.add(zeroT, t, r.hi)
+			}
+			if r.lo > -inf {
+				g.add(t, zeroT, -r.lo)
+			}
+		}
 	}
 	if tc, ok := trustedCountEq[sc.String()]; ok && tc[0] == x.Index {
 		arg := g.e.termOf(c.Call.Args[tc[2]])
@@ -1507,11 +1535,32 @@ func (g *factGraph) countFacts(t termT, x *ssa.Extract, d int) {
 			g.eq(arg, t, 0)
 		}
 	}
-	if c.Call.IsInvoke() && (c.Call.Method.Name() == "Read" || c.Call.Method.Name() == "ReadAt") && x.Index == 0 && len(c.Call.Args) > 0 {
-		arg := termT{v: g.e.lenBase(c.Call.Args[0]), len: true}
-		g.touch(arg, d+1)
-		g.add(arg, t, 0) // n ≤ len(p) (io.Reader contract)
+}
+
+// retRngNil: range of result #idx of f over the returns whose error result #errIdx may be nil.
+func (e *E3) retRngNil(f *ssa.Function, idx, errIdx int) ival {
+	tr := typeRange(f.Signature.Results().At(idx).Type())
+	var r *ival
+	eachInstr(f, func(b *ssa.BasicBlock, _ int, in ssa.Instruction) {
+		ret, ok := in.(*ssa.Return)
+		if !ok || idx >= len(ret.Results) || errIdx >= len(ret.Results) {
+			return
+		}
+		if e.definitelyNonNil(ret.Results[errIdx], b) {
+			return
+		}
+		x := e.rng(ret.Results[idx])
+		if r == nil {
+			r = &x
+		} else {
+			h := hull(*r, x)
+			r = &h
+		}
+	})
+	if r == nil {
+		return tr
 	}
+	return *r
 }
 
 func tupleExtractV(call ssa.Value, idx int) ssa.Value {
@@ -1666,6 +1715,58 @@ func (g *factGraph) accessFacts(t termT, d int) {
 				g.add(t, lt, 0)
 			}
 		}
+	}
+}
+
+// joinFacts: an acyclic phi all of whose edges are base + δ_k for one common value base (i = φ(i1, i1+2),
+// φ(i3, i3+n) with n ≥ 0): base + min δ ≤ phi ≤ base + max δ, the δ ranged flow-insensitively.
+func (g *factGraph) joinFacts(phi *ssa.Phi, t termT, d int) {
+	if phiHasBackEdge(phi) || len(phi.Edges) < 2 || !is64(phi.Type()) {
+		return
+	}
+	var affs []*Aff
+	for _, ed := range phi.Edges {
+		a := affineWide(ed)
+		if a == nil {
+			return
+		}
+		affs = append(affs, a)
+	}
+	for k := range affs[0].Terms {
+		base, ok := k.(ssa.Value)
+		if !ok {
+			continue
+		}
+		all := true
+		for _, a := range affs {
+			if a.coef(base) != 1 {
+				all = false
+			}
+		}
+		if !all {
+			continue
+		}
+		lo, hi := inf, -inf
+		for _, a := range affs {
+			rest := a.clone()
+			delete(rest.Terms, base)
+			r := g.e.affRange(rest)
+			if r.lo < lo {
+				lo = r.lo
+			}
+			if r.hi > hi {
+				hi = r.hi
+			}
+		}
+		bt := g.e.termOf(base)
+		g.touch(bt, d+1)
+		if lo > -inf {
+			g.add(t, bt, -lo) // base − phi ≤ −lo
+		}
+		if hi < inf {
+			g.add(bt, t, hi)
+		}
+		return
 	}
 }
 
@@ -1862,6 +1963,47 @@ func (g *factGraph) condFacts() {
 	}
 	g.distinctByteFacts()
 	g.resolvePending()
+	g.refineArith()
+}
+
+// refineArith: t = x + y (no wrap): t − x = y, so the path facts about y (a dominating `y < 1` false edge gives
+// y ≥ 1) sharpen the difference constraints between t and x that were first added from y's flow-insensitive range.
+func (g *factGraph) refineArith() {
+	for round := 0; round < 2; round++ {
+		for _, x := range g.arith {
+			t := termT{v: x}
+			xa, ya := g.e.termOf(x.X), g.e.termOf(x.Y)
+			bounds := func(a termT) (lo, hi int64) {
+				if a.v == nil {
+					return 0, 0
+				}
+				return -g.shortest(a, zeroT), g.shortest(zeroT, a)
+			}
+			xlo, xhi := bounds(xa)
+			ylo, yhi := bounds(ya)
+			if x.Op == token.ADD {
+				if yhi < inf {
+					g.add(xa, t, yhi)
+				}
+				if ylo > -inf {
+					g.add(t, xa, -ylo)
+				}
+				if xhi < inf {
+					g.add(ya, t, xhi)
+				}
+				if xlo > -inf {
+					g.add(t, ya, -xlo)
+				}
+			} else {
+				if ylo > -inf {
+					g.add(xa, t, -ylo)
+				}
+				if yhi < inf {
+					g.add(t, xa, yhi)
+				}
+			}
+		}
+	}
 }
 
 // distinctByteFacts: two dominating conditions base[a] == K1 and base[b] == K2 with K1 ≠ K2 on the same
